@@ -17,10 +17,11 @@ def meta_of(path):
     return None
 
 
+ready = set(open(os.path.join(V, 'tools', 'ready.txt')).read().split())
 checks, na = [], []
 for pid in props:
     p = os.path.join(V, 'checks', pid + '.py')
-    m = meta_of(p) if os.path.exists(p) else None
+    m = meta_of(p) if os.path.exists(p) and pid in ready else None
     if not m or m.get('not_applicable'):
         na.append({'property_id': pid, 'reason': (m or {}).get('not_applicable') or
                    'check not built yet (planned: DESIGN.md section 3.%d); nothing is claimed for it' % int(pid[1:])})
